@@ -102,7 +102,9 @@ theorem msgWord_BufferWriter_eq (t : BitVec 32) :
     `binReadMessageBegin` -/
 theorem msgBadVersion_Read_eq (h : BitVec 32) :
     k_msgBadVersion_Read h = true ↔ h.toNat &&& Facts.msgVersionMask ≠ Facts.msgVersion1 := by
-  simp [k_msgBadVersion_Read, Facts.msgVersionMask, Facts.msgVersion1, ← BitVec.toNat_inj]
+  first
+    | (simp [k_msgBadVersion_Read, Facts.msgVersionMask, Facts.msgVersion1, ← BitVec.toNat_inj]; done)
+    | (unfold k_msgBadVersion_Read; rw [bne_comm]; simp [Facts.msgVersionMask, Facts.msgVersion1, ← BitVec.toNat_inj])  -- operands of the comparison swapped in the source
 
 /-- `header & msgTypeMask` of `Binary.ReadMessageBegin` -/
 theorem msgType_Read_eq (h : BitVec 32) :
@@ -114,7 +116,9 @@ theorem msgType_Read_eq (h : BitVec 32) :
 theorem msgBadVersion_BufferReader_eq (h : BitVec 32) :
     k_msgBadVersion_BufferReader h = true ↔
       ofInt 32 h.toInt &&& Facts.msgVersionMask ≠ Facts.msgVersion1 := by
-  simp [ofInt_toInt, k_msgBadVersion_BufferReader, Facts.msgVersionMask, Facts.msgVersion1, ← BitVec.toNat_inj]
+  first
+    | (simp [ofInt_toInt, k_msgBadVersion_BufferReader, Facts.msgVersionMask, Facts.msgVersion1, ← BitVec.toNat_inj]; done)
+    | (unfold k_msgBadVersion_BufferReader; rw [bne_comm]; simp [ofInt_toInt, Facts.msgVersionMask, Facts.msgVersion1, ← BitVec.toNat_inj])  -- operands swapped
 
 /-- `uint32(header) & msgTypeMask` of `(*BufferReader).ReadMessageBegin` -/
 theorem msgType_BufferReader_eq (h : BitVec 32) :
